@@ -208,6 +208,9 @@ class DecObserver(object):
         self.on_violation = None
         self.sent = []           # batches the source put on the raw pipe (set by the rig)
         self.bi = 0
+        self.own_vals = {}
+        from ..bootstrap import boot
+        self.pms = boot()
 
     def add(self, clause, detail):
         if len(self.vio) < 4:
@@ -310,6 +313,25 @@ class DecObserver(object):
                 setf = [f for f in r2.COMMB_FIELDS if rec.get(f) is not None]
                 if setf:
                     self.add("C17.d", "batch %d: %s carries Comm-B fields %r without a Comm-B reply while listed" % (ci, ku, setf))
+        # provenance of Comm-B derived values (same clause as in R2)
+        pm = self.pms
+        for u in units:
+            for _t, x in u["c"]:
+                adr = R.frame_address(x.upper())
+                if adr not in self.own_vals:
+                    self.own_vals[adr] = dict((f, set()) for f, _fn in r2.PROVENANCE)
+                for f, fn in r2.PROVENANCE:
+                    try:
+                        self.own_vals[adr][f].add(getattr(pm.commb, fn)(x))
+                    except Exception:
+                        pass
+        for k, rec in table.items():
+            ku = str(k).upper()
+            for f, _fn in r2.PROVENANCE:
+                v = rec.get(f)
+                if v is not None and v not in self.own_vals.get(ku, {}).get(f, ()):
+                    self.add("C17.d", "batch %d: %s carries %s=%r which none of its own Comm-B replies decodes to" % (ci, ku, f, v))
+                    break
         if self.faults_fired:
             # the pipeline table may have absorbed parts of failed calls the twin
             # never saw: case comparison is only meaningful on fault-free prefixes
